@@ -509,6 +509,25 @@ func (lf *linFn) buildFacts() {
 // prove: goal >= 0 follows from the facts (each >= 0) and the sign of the atoms: search for non-negative multipliers such
 // that goal - sum(lambda_j * fact_j) has no atom of the wrong sign and a non-negative constant. Each step removes one
 // offending component (an atom with a negative coefficient, an atom of unknown sign, or a negative constant) exactly.
+// sortedAtoms: the atoms of a form in a fixed order (the verdicts must not depend on map iteration).
+func sortedAtoms(l *lin) []atom {
+	out := make([]atom, 0, len(l.c))
+	for x := range l.c {
+		out = append(out, x)
+	}
+	sort.Slice(out, func(i, j int) bool {
+		a, b := out[i], out[j]
+		if a.v.Name() != b.v.Name() {
+			return a.v.Name() < b.v.Name()
+		}
+		if a.isLen != b.isLen {
+			return !a.isLen
+		}
+		return a.v.Pos() < b.v.Pos()
+	})
+	return out
+}
+
 func prove(goal *lin, facts []*lin, depth int) bool {
 	var neg []atom
 	for x, q := range goal.c {
@@ -565,7 +584,8 @@ func (lf *linFn) proveAt(goal *lin, in ssa.Instruction, depth int) bool {
 	}
 	added := false
 	// a value of an 8- or 16-bit unsigned type is bounded by its type
-	for x, q := range goal.c {
+	for _, x := range sortedAtoms(goal) {
+		q := goal.c[x]
 		if q.Sign() < 0 && !x.isLen {
 			if bits, signed, ok := intKind(x.v.Type()); ok && !signed && bits <= 16 {
 				facts = append(facts, linConst(int64(1)<<uint(bits)-1).sub(linAtom(x)))
@@ -578,7 +598,7 @@ func (lf *linFn) proveAt(goal *lin, in ssa.Instruction, depth int) bool {
 		seen := map[atom]bool{}
 		var quos []*ssa.BinOp
 		collect := func(l *lin) {
-			for x := range l.c {
+			for _, x := range sortedAtoms(l) {
 				if seen[x] || x.isLen {
 					continue
 				}
@@ -606,7 +626,8 @@ func (lf *linFn) proveAt(goal *lin, in ssa.Instruction, depth int) bool {
 		}
 	}
 	// atoms of unknown sign that the interprocedural sign prover shows non-negative become facts
-	for x, q := range goal.c {
+	for _, x := range sortedAtoms(goal) {
+		q := goal.c[x]
 		if q.Sign() > 0 && !x.isLen && !nonNegAtom(x) && lf.px.nn.nonNeg(x.v, in, 0) {
 			facts = append(facts, linAtom(x))
 			added = true
@@ -618,7 +639,8 @@ func (lf *linFn) proveAt(goal *lin, in ssa.Instruction, depth int) bool {
 	if depth > 2 {
 		return false
 	}
-	for x, q := range goal.c {
+	for _, x := range sortedAtoms(goal) {
+		q := goal.c[x]
 		ph, ok := x.v.(*ssa.Phi)
 		if !ok || x.isLen {
 			continue
